@@ -527,3 +527,72 @@ impl<'de, 'a> de::Deserializer<'de> for TreeDe<'a> {
         seq tuple tuple_struct map struct enum identifier ignored_any
     }
 }
+
+// ------------------------------------------------------------------ tree -> bytes through ANY serde serializer
+//
+// `Serialize for Tree` replays the tree on a real serializer (rmp_serde, cbor4ii) exactly as the derived impl of the typed
+// value would: this is how a value with a DAMAGED leaf (a public key that is not a curve point, a multiaddr that does not
+// parse — something no typed value can hold) is put into canonical bytes for the decoders.  serde wants `&'static str`
+// names; they are interned (the set of names is the finite vocabulary of the wire types).
+
+fn intern(s: &str) -> &'static str {
+    use std::collections::HashMap;
+    use std::sync::{Mutex, OnceLock};
+    static NAMES: OnceLock<Mutex<HashMap<String, &'static str>>> = OnceLock::new();
+    let mut m = NAMES.get_or_init(|| Mutex::new(HashMap::new())).lock().unwrap_or_else(|e| e.into_inner());
+    if let Some(x) = m.get(s) {
+        return x;
+    }
+    let leaked: &'static str = Box::leak(s.to_string().into_boxed_str());
+    m.insert(s.to_string(), leaked);
+    leaked
+}
+
+impl Serialize for Tree {
+    fn serialize<S: ser::Serializer>(&self, s: S) -> Result<S::Ok, S::Error> {
+        use ser::{SerializeMap, SerializeSeq, SerializeStruct, SerializeTuple};
+        match self {
+            Tree::Unit => s.serialize_unit(),
+            Tree::Bool(b) => s.serialize_bool(*b),
+            Tree::U(n) => s.serialize_u64(*n),
+            Tree::I(m) => s.serialize_i64(-(*m as i64) - 1),
+            Tree::Str(b) => match std::str::from_utf8(b) {
+                Ok(t) => s.serialize_str(t),
+                Err(_) => Err(ser::Error::custom("text is not UTF-8")),
+            },
+            Tree::Bytes(b) => s.serialize_bytes(b),
+            Tree::None => s.serialize_none(),
+            Tree::Some(t) => s.serialize_some(&**t),
+            Tree::Seq(ts) => {
+                let mut q = s.serialize_seq(Some(ts.len()))?;
+                for t in ts {
+                    q.serialize_element(t)?;
+                }
+                q.end()
+            }
+            Tree::Tup(ts) => {
+                let mut q = s.serialize_tuple(ts.len())?;
+                for t in ts {
+                    q.serialize_element(t)?;
+                }
+                q.end()
+            }
+            Tree::UVar(n) => s.serialize_unit_variant("", 0, intern(n)),
+            Tree::NVar(n, t) => s.serialize_newtype_variant("", 0, intern(n), &**t),
+            Tree::Map(ps) => {
+                let mut m = s.serialize_map(Some(ps.len()))?;
+                for (k, v) in ps {
+                    m.serialize_entry(k, v)?;
+                }
+                m.end()
+            }
+            Tree::Rec(fs) => {
+                let mut r = s.serialize_struct("", fs.len())?;
+                for (k, v) in fs {
+                    r.serialize_field(intern(k), v)?;
+                }
+                r.end()
+            }
+        }
+    }
+}
